@@ -1113,6 +1113,52 @@ def plan_misc(rng: random.Random, tree, src=None, unpar_p=0.3):
     return m
 
 
+def plan_misc_sweep(rng: random.Random, tree, src, k):
+    """Systematic layout-only edits for C02 (see c02_hist.run_lockstep(sweep=True)): line-comment puts on the statements
+    that are the last statement of the most enclosing blocks (their trailing comment is part of every enclosing block's
+    `bloc`), a few other statements, and docstring puts on the deepest definitions. Paths stay valid because none of
+    these edits changes the structure (put_docstr comes last)."""
+    stmts = [(n, p) for n, p in walk_paths(tree) if isinstance(n, ast.stmt) and p]
+
+    def lastness(p):
+        n, c = tree, []
+        for f, i in p:
+            n2 = getattr(n, f)
+            c.append(i is not None and i == len(n2) - 1)
+            n = n2[i] if i is not None else n2
+        r = 0
+        for x in reversed(c):
+            if not x:
+                break
+            r += 1
+        return r
+
+    ranked = sorted(stmts, key=lambda t: (-lastness(t[1]), -len(t[1]), rng.random()))
+    pick = ranked[:max(1, k // 2)]
+    rest = ranked[len(pick):]
+    rng.shuffle(rest)
+    pick += rest[:max(0, k - len(pick) - 1)]
+    out = []
+    texts = ['a much longer replacement comment than the one before it', 'c', None, 'x' * 40]
+    for j, (n, p) in enumerate(pick):
+        m = MiscPlan()
+        m.op, m.arg, m.path, m.kind = 'put_line_comment', texts[j % len(texts)], p, n.__class__.__name__
+        m.extra = {'field': None}
+        out.append(m)
+        if j % 2 == 0:  # replace it again by something of another length: the first put may have been an insertion
+            m2 = MiscPlan()
+            m2.op, m2.arg, m2.path, m2.kind = 'put_line_comment', texts[(j + 1) % len(texts)], p, m.kind
+            m2.extra = {'field': None}
+            out.append(m2)
+    defs = [(n, p) for n, p in walk_paths(tree) if isinstance(n, (ast.FunctionDef, ast.AsyncFunctionDef, ast.ClassDef))]
+    if defs:
+        n, p = max(defs, key=lambda t: len(t[1]))
+        m = MiscPlan()
+        m.op, m.arg, m.path, m.kind, m.extra = 'put_docstr', 'swept\ndoc', p, n.__class__.__name__, {'reput': False}
+        out.append(m)
+    return out[:k]
+
+
 def _under(tree, path, kinds):
     n = tree
     for f, i in path:
